@@ -387,7 +387,9 @@ where
 
           // Then, if there is still room, top up from the core_pipe_manager
           let start_len = outgoing_batch.len();
-          if start_len < max_count && total_bytes < logical_max_bytes {
+          // Only pull newer messages from the pipe once every older carried-over message
+          // is in this batch; otherwise they would overtake what is still in carry-over.
+          if start_len < max_count && total_bytes < logical_max_bytes && core_carryover.is_empty() {
             // Dynamically calculate actual remaining slots based on the average size of current messages
             let avg_size = if start_len > 0 {
               total_bytes / start_len
